@@ -33,7 +33,8 @@ RULE = ("histories of 1-10 operations over charts of the five games (0-12 hits, 
         "extra StepMania lists; default, permuted and gapped row labels; list-valued cells and list-valued metadata); every "
         "operation of the model's table is drawn (filters/sort/append/move/copy on all 24 list classes, rate, 17 converter "
         "entry points, 4 writers, full_ln, hitsound_copy, sv_normalize, scroll_speed, dominant_bpm, Pattern.from_note_lists/"
-        "group/combinations, two sharing operations as negative controls); distinct = distinct canonical JSON; non-trivial = "
+        "group/combinations, two sharing operations as negative controls; `append` is given a list of the same class, any other "
+        "list of the pool, a cut-down list or a hand-made DataFrame, all snapshotted as arguments); distinct = distinct canonical JSON; non-trivial = "
         "at least one call returned and its arguments held at least one non-empty frame")
 ASSUMPTIONS = [
     "effect signatures are observed, not proved: the theorems are about any behaviour within the table's signatures, the "
@@ -46,7 +47,6 @@ ASSUMPTIONS = [
 TRUSTED_EXTRA = ["C14: object walker / snapshot / np.shares_memory aliasing / in-place mutation probe in harness/props/c14.py"]
 
 GAMES = ["osu", "quaver", "sm", "bms", "o2jam"]
-N14A_OPS = ("conv.OsuToQua.convert", "conv.QuaToOsu.convert")
 
 _TABLE = {}
 
@@ -293,7 +293,10 @@ def gen_step(rng, op, game):
     elif op == "list.sorted":
         a = dict(reverse=rng.random() < 0.3)
     elif op == "list.append":
-        a = dict(sort=rng.random() < 0.4)
+        # what is appended: a list of the same class, ANY list of the pool (narrower / wider / other game), a list of
+        # the same class cut down to some of its columns, or a hand-made DataFrame with some of the columns
+        a = dict(sort=rng.random() < 0.4, mode=rng.choice(["same", "any", "any", "narrow", "frame"]), cols=rng.getrandbits(12),
+                 rows=rng.randint(0, 3))
     elif op == "list.append_item":
         a = dict(sort=rng.random() < 0.4, offset=g_off(rng))
     elif op in ("list.move_start_to", "list.move_end_to"):
@@ -336,6 +339,7 @@ def gen(rng, tier, i):
         # favour the non-list operations a little: there are many list ops
         heavy = [o for o in ops if not o.startswith("list.")]
         heavy += [o for o in heavy if o.startswith("ptn.g")] * 4 + [o for o in heavy if o.startswith("ptn.c")] * 12
+        ops = ops + [o for o in ops if o == "list.append"] * 2       # four kinds of appended value
         op = rng.choice(heavy) if heavy and rng.random() < 0.55 else rng.choice(ops)
         steps.append(gen_step(rng, op, game))
         for kk in result_kinds(op, source_game_of(op, game, kinds)):
@@ -391,7 +395,7 @@ def corpus():
     c.append(_h("osu", 4, [osu1, osu2], [_st("alg.scroll_speed", override=None), _st("alg.dominant_bpm"), _st("alg.full_ln", gap=150, thres=100),
                                           _st("alg.hitsound_copy", src=0, other=1), _st("map.rate", by=2), _st("write.osu")]))
     c.append(_h("osu", 4, [osu1], [_st("conv.OsuToQua.convert"), _st("conv.OsuToSM.convert"), _st("conv.OsuToBMS.convert", move=0)]))
-    # N14a: the tags list
+    # D38: the tags list
     c.append(_h("osu", 4, [osu1], [_st("conv.OsuToQua.convert")]))
     c.append(_h("osu", 4, [osu2], [_st("conv.OsuToQua.convert")]))
     # list operations, permuted labels
@@ -402,6 +406,14 @@ def corpus():
     # a view of a view reaches the base frame through memory (minimised disagreement of an early version of this check)
     c.append(_h("osu", 4, [osu1], [_st("list.slice", src=0, a=0, b=3), _st("list.slice", src=5, a=0, b=2), _st("list.wrap", src=6),
                                    _st("list.deepcopy", src=7), _st("list.sorted", src=6, reverse=True)]))
+    # append of something narrower than the receiver: another list class, a cut-down list, a hand-made DataFrame
+    c.append(_h("osu", 4, [osu1], [_st("list.append", src=0, other=2, sort=False, mode="any", cols=0, rows=0),
+                                   _st("list.append", src=0, other=0, sort=True, mode="narrow", cols=1, rows=2),
+                                   _st("list.append", src=3, other=0, sort=False, mode="frame", cols=0, rows=1),
+                                   _st("list.append", src=1, other=4, sort=False, mode="any", cols=0, rows=0)]))
+    # storyboard samples live outside `objs`: rate / full_ln / deepcopy of an osu chart that has them
+    c.append(_h("osu", 4, [osu1], [_st("map.rate", by=2), _st("alg.full_ln", gap=150, thres=100), _st("map.deepcopy"),
+                                   _st("map.rate", src=1, by=0.5)]))
     c.append(_h("osu", 4, [osu1], [_st("ptn.from_note_lists", tails=True), _st("ptn.group", v=100, h=None, jack=True),
                                    _st("ptn.combinations", size=2, size2=False, chord=False, combo=False, typ=False)]))
     qua = dict(lists=dict(hits=_lst(dict(offset=[0, 250, 500], column=[0, 1, 2], keysounds=[[], ["k1"], []])),
@@ -467,6 +479,9 @@ def valid(case):
                 return False
             if s["op"] in ("map.rate", "mapset.rate") and not (s["args"].get("by") and s["args"]["by"] > 0):
                 return False
+            if s["op"] == "list.append" and s["args"].get("mode", "same") in ("narrow", "frame"):
+                if not all(isinstance(s["args"].get(k), int) and s["args"][k] >= 0 for k in ("cols", "rows")):
+                    return False
         return True
     except Exception:
         return False
@@ -875,8 +890,17 @@ def prepare_call(step, pool):
         if op == "list.sorted":
             return [tl], (lambda: tl.sorted(reverse=a["reverse"])), lst
         if op == "list.append":
-            same = [x for g, x in ls if type(x) is type(tl)]
-            other = pick(same, step["other"])
+            import pandas as pd
+            mode = a.get("mode", "same")
+            if mode == "same":
+                other = pick([x for g, x in ls if type(x) is type(tl)], step["other"])
+            elif mode == "any":
+                other = pick([x for g, x in ls], step["other"])
+            else:
+                donor = pick([x for g, x in ls if type(x) is type(tl)], step["other"])
+                keep = ["offset"] + [c for i, c in enumerate(donor.df.columns) if c != "offset" and (a["cols"] >> (i % 12)) & 1]
+                sub = donor.df[keep].iloc[: a["rows"]].copy()
+                other = type(tl)(sub) if mode == "narrow" else sub
             return [tl, other], (lambda: tl.append(other, sort=a["sort"])), lst
         if op == "list.append_item":
             if len(tl) == 0:
@@ -1087,6 +1111,7 @@ def observe(case):
         return out
 
     heap0 = snap()
+    known = len(heap0)
     events, tags = [], []
     nonempty = False
     for si, step in enumerate(case["steps"]):
@@ -1099,6 +1124,7 @@ def observe(case):
         arg_cells = [arg_closure(o, heap) for o in args]
         before = snap()
         n = len(before)
+        pre_news = before[known:]          # objects built for this call (a hand-made list / DataFrame argument)
         try:
             res = thunk()
             raised = None
@@ -1109,7 +1135,8 @@ def observe(case):
             tags.append("raises:" + op)
             after_all = snap()
             events.append(dict(sig=op, step=si, raised=raised, args=arg_cells, n=n, before=before, after=after_all[:n],
-                               news=after_all[n:], ret=[], mutated=False))
+                               news=after_all[n:], ret=[], mutated=False, pre_news=pre_news))
+            known = len(after_all)
             continue
         new_entries = entries(res)
         res_cells = []
@@ -1130,7 +1157,7 @@ def observe(case):
         after_all = snap()
         sig = _TABLE.get(op)
         ev = dict(sig=op, step=si, args=arg_cells, n=n, before=before, after=after_all[:n], news=after_all[n:], ret=ret,
-                  mutated=False, alias=alias)
+                  mutated=False, alias=alias, pre_news=pre_news)
         if sig is not None and sig["copy"] and res_cells:
             # probe 1: every buffer / container of the result is changed in place (cell objects are replaced)
             undo = mutate_result(res_cells, heap, deep=False)
@@ -1149,6 +1176,7 @@ def observe(case):
             if snap()[:len(after_all)] != after_all:
                 tags.append("restore-failed")
         events.append(ev)
+        known = len(heap.objs)
         tags.append(op)
         if op.startswith("list."):
             tags.append("cls:" + type(args[0]).__name__)
@@ -1182,13 +1210,7 @@ def run(case, drv):
         e_ok = v["frame_ok"] and v["fresh_ok"] and v["mut_ok"] and v["deep_ok"]
         if not e_ok:
             ok = False
-            kf_e = None
-            if (v["frame_ok"] and v["within"] and v["mut_within"] and set(v["deep_changed"]) <= set(v["mut_changed"])
-                    and ev["sig"] in N14A_OPS):
-                kf_e = "N14a"          # only the cells the signature lets these two converters share (the tags list)
-            elif v["frame_ok"] and v["fresh_ok"] and v["mut_ok"] and _TABLE[ev["sig"]]["deep"] and all(
-                    _has_list_cells(obs["frames"][ev["before"][q]]) for q in v["deep_changed"]):
-                kf_e = "N14b"          # only list objects inside object columns, reached through a deepcopy result
+            kf_e = None          # D38 / D39 are repaired: no open finding touches this property
             kf_events.append(kf_e)
             bad.append(dict(step=ev["step"], op=ev["sig"], frame_ok=v["frame_ok"], fresh_ok=v["fresh_ok"], mut_ok=v["mut_ok"],
                             deep_ok=v["deep_ok"], written=_name_refs(ev, v["written"]), shared=_name_refs(ev, v["shared"]),
@@ -1203,8 +1225,8 @@ def run(case, drv):
     if not r["legal"] or not r["final_equal"]:
         agree = False
         detail["model"] = dict(legal=r["legal"], final_equal=r["final_equal"], first_illegal=r.get("first_illegal"))
-    # outside the theorems' hypotheses: an illegal history, or a call inside the predicate of N14a / N14b
-    dom = bool(r["legal"]) and not kf_events
+    # outside the theorems' hypotheses: a history that is not legal over the model's table
+    dom = bool(r["legal"])
     tags = tags + [k for k in set(kf_events) if k]
     if bad:
         bad.sort(key=lambda b: b.get("kf") is not None)          # events outside every known finding first
